@@ -4,6 +4,7 @@
 package main
 
 import (
+	"context"
 	"errors"
 	"fmt"
 	"net/http"
@@ -14,6 +15,7 @@ import (
 )
 
 type world struct {
+	lastMethod string
 	log     []string // call log of the request in flight: interceptor names, then "T<k>"
 	calls   int
 	ics     map[string]*network.Interceptor
@@ -32,6 +34,7 @@ type stubT struct {
 func (t *stubT) RoundTrip(req *http.Request) (*http.Response, error) {
 	t.w.log = append(t.w.log, fmt.Sprintf("T%d", t.id))
 	t.w.lastHdr = req.Header.Clone()
+	t.w.lastMethod = req.Method
 	return &http.Response{StatusCode: 200, Status: "200 OK", Proto: "HTTP/1.1", ProtoMajor: 1, ProtoMinor: 1, Header: http.Header{}, Body: http.NoBody, Request: req}, nil
 }
 
@@ -131,6 +134,23 @@ func (w *world) request(s int, verb string) string {
 			err = h.Get("http://api.test/x").Err
 		case "Post":
 			err = h.Post("http://api.test/x", "text/plain", strings.NewReader("b")).Err
+		case "Head":
+			err = h.Head("http://api.test/x").Err
+		case "Options":
+			err = h.Options("http://api.test/x").Err
+		case "Delete":
+			err = h.Delete("http://api.test/x").Err
+		case "Put":
+			err = h.Put("http://api.test/x", "text/plain", strings.NewReader("b")).Err
+		case "Patch":
+			err = h.Patch("http://api.test/x", "text/plain", strings.NewReader("b")).Err
+		case "DoNewRequest":
+			err = h.DoNewRequest(context.Background(), http.Header{"X-Own": []string{"1"}}, "TRACE", "http://api.test/x").Err
+		case "DoNewRequestWithBodyOptions":
+			err = h.DoNewRequestWithBodyOptions(context.Background(), nil, "REPORT", "http://api.test/x", strings.NewReader("b"), "text/plain").Err
+		case "DoRequest":
+			req, _ := http.NewRequest("LINK", "http://api.test/x", nil)
+			err = h.DoRequest(req).Err
 		case "API":
 			var target struct{}
 			api := network.APIMakeGet[struct{}](w.apis[s], "x")
@@ -193,6 +213,11 @@ func (w *world) request(s int, verb string) string {
 	}
 	if err != nil {
 		return fmt.Sprintf("request failed: %v", err)
+	}
+	wantMethod := map[string]string{"Get": "GET", "API": "GET", "Post": "POST", "Head": "HEAD", "Options": "OPTIONS", "Delete": "DELETE", "Put": "PUT", "Patch": "PATCH",
+		"DoNewRequest": "TRACE", "DoNewRequestWithBodyOptions": "REPORT", "DoRequest": "LINK"}[verb]
+	if w.lastMethod != wantMethod {
+		return fmt.Sprintf("%s reached the transport as a %s request", verb, w.lastMethod)
 	}
 	if fmt.Sprint(w.lastHdr["X-Seen"]) != fmt.Sprint(want) && !(len(want) == 0 && len(w.lastHdr["X-Seen"]) == 0) {
 		return fmt.Sprintf("header changes made by the interceptors did not reach the transport: X-Seen=%v, want %v", w.lastHdr["X-Seen"], want)
@@ -272,8 +297,13 @@ func run(all []op, prog []step) (fail string, key string) {
 	// every instance must answer a probe request according to its model (so a wrong list is seen
 	// even when the history ends with a registration)
 	for s := range w.https {
-		if f := w.request(s, "Get"); f != "" {
-			return fmt.Sprintf("probe request on instance %d after the history: %s", s, f), ""
+		for _, verb := range []string{"Get", "Head", "Options", "Delete", "Post", "Put", "Patch", "DoNewRequest", "DoNewRequestWithBodyOptions", "DoRequest"} {
+			if f := w.request(s, verb); f != "" {
+				if verb != "Get" {
+					f = verb + ": " + f
+				}
+				return fmt.Sprintf("probe request on instance %d after the history: %s", s, f), ""
+			}
 		}
 	}
 	return "", fmt.Sprint(w.model) + "|" + lib.Canon(w.https[0], w.https[1])
@@ -286,6 +316,62 @@ func progNames(all []op, prog []step) []string {
 	}
 	return n
 }
+
+// defaultConstructors: NewSimpleHTTP() and NewSimpleAPI(url) build independent instances: three of them,
+// each given its own stub client, register different interceptors; a request through one runs exactly
+// its own interceptors. All orders of the three registrations and every instance as the requester.
+func defaultConstructors(r *lib.Report) int64 {
+	var n int64
+	for _, order := range [][]int{{0, 1, 2}, {0, 2, 1}, {1, 0, 2}, {1, 2, 0}, {2, 0, 1}, {2, 1, 0}} {
+		var log []string
+		var hs []*network.SimpleHTTPDef
+		fail := ""
+		p := lib.Catch(func() {
+			h0, h1 := network.NewSimpleHTTP(), network.NewSimpleHTTP()
+			api := network.NewSimpleAPI("http://api.test")
+			hs = []*network.SimpleHTTPDef{h0, h1, api.GetSimpleHTTP()}
+			if hs[2] == nil || hs[2] == h0 || hs[2] == h1 || h0 == h1 {
+				fail = "NewSimpleHTTP / NewSimpleAPI handed out the same SimpleHTTP twice"
+				return
+			}
+			for k, h := range hs {
+				k := k
+				h.SetHTTPClient(&http.Client{Transport: roundTripFunc(func(req *http.Request) (*http.Response, error) {
+					log = append(log, fmt.Sprintf("T%d", k))
+					return &http.Response{StatusCode: 200, Status: "200 OK", Proto: "HTTP/1.1", ProtoMajor: 1, ProtoMinor: 1, Header: http.Header{}, Body: http.NoBody, Request: req}, nil
+				})})
+			}
+			for _, k := range order {
+				k := k
+				var ic network.Interceptor = func(req *http.Request) error { log = append(log, fmt.Sprintf("i%d", k)); return nil }
+				hs[k].AddInterceptor(&ic)
+			}
+			for k, h := range hs {
+				log = nil
+				n++
+				if err := h.Get("http://api.test/x").Err; err != nil {
+					fail = fmt.Sprintf("request through instance %d failed: %v", k, err)
+					return
+				}
+				if want := fmt.Sprintf("[i%d T%d]", k, k); fmt.Sprint(log) != want {
+					fail = fmt.Sprintf("registration order %v: a request through instance %d gave the call log %v, want %s", order, k, log, want)
+					return
+				}
+			}
+		})
+		if p != "" {
+			fail = "panic: " + p
+		}
+		if fail != "" {
+			r.Violation("C18|default-constructors|independent-instances", fail, map[string]interface{}{"order": order})
+		}
+	}
+	return n
+}
+
+type roundTripFunc func(req *http.Request) (*http.Response, error)
+
+func (f roundTripFunc) RoundTrip(req *http.Request) (*http.Response, error) { return f(req) }
 
 func main() {
 	r := lib.NewReport("C18")
@@ -358,6 +444,7 @@ func main() {
 		}
 		frontier = next
 	}
+	trans += defaultConstructors(r)
 	r.Cov["states"] = len(seen)
 	r.Cov["transitions"] = trans
 	r.Cov["traces_validated_against_impl"] = trans
